@@ -61,6 +61,18 @@ def run(rep, tier):
             rep.ob(e is not None and e[0] == kind and e[1] == w, 'tables:INVERSE:dec:0x%02x' % b,
                    'C10 the decoder accepts type byte 0x%02x as %s of width %d but no encoder path produces it (%s)' % (b, kind, w, e), '',
                    sample={'type_byte': hex(b), 'decoded_as': kind, 'produced_by_encoder': True})
+        # byte order: the encoder puts byte k of the value at payload position k, the decoder reads payload position k into byte k
+        eb = T.encoder_bytes(mod)
+        asm = T.decoder_assembly(C, mod)
+        for w in (1, 2, 4, 8):
+            enc_le = all(len(by) == ww and all(d is not None and d[0] == 'v' and d[2] == k for k, d in enumerate(by))
+                         for f, rows in eb.items() for (ww, by) in rows if ww == w)
+            dec_le = bool(asm.get((w, 1))) and all(r['ok'] for r in asm[(w, 1)])
+            rep.ob(enc_le and dec_le, 'tables:INVERSE:order:%d' % w,
+                   'C10 width %d: encoder and decoder do not agree on the byte order (encoder little-endian: %s, decoder little-endian with sign fill: %s)' % (w, enc_le, dec_le), '',
+                   sample={'width': w, 'encoder_position_k_is_value_byte_k': enc_le, 'decoder_value_byte_k_is_position_k': dec_le})
+        dd = asm.get((8, 0))
+        rep.ob(bool(dd) and all(r['ok'] for r in dd), 'tables:INVERSE:order:double', 'C10 the 8 bytes of a double are not read back in the order they are written', '')
     rep.coverage.update({
         'rule': 'for every encoder row (kind, value set) -> (byte, width) the decoder maps the byte to the same kind and width and accepts exactly that value set; '
                 'every decoder-accepted byte is produced by some encoder row',
@@ -68,4 +80,4 @@ def run(rep, tier):
         'explanation': 'metamorphic: the two extracted tables are compared with each other, not with a specification',
         'exhaustive': True,
     })
-    rep.assumptions += ['NOT decided: byte-for-byte identity over all documents; payload byte order; structural tokens are compared in C02/C05']
+    rep.assumptions += ['NOT decided: byte-for-byte identity over all documents (structure, names, order); structural tokens are compared in C02/C05']
